@@ -17,7 +17,7 @@ PROPS = {
         "level_text": "Generated-input search: tens of thousands (quick) to millions (thorough) of list pairs covering every alignment pattern named in the property; "
                       "each compared with an independent reference of the formula under both methods. No counter-example = no violation among the generated classes, not a proof.",
         "level_note": "trusted: the reference formula in the harness (set based, 30 lines), Go float64 arithmetic, rapid's generators; tolerance 1e-9 relative",
-        "expect_classes": {"lists": ["no matching gene", "excess and disjoint", "gene-less side", "different lengths with disjoint genes"]},
+        "expect_classes": {"lists": ["no matching gene", "excess and disjoint", "gene-less side", "different lengths with disjoint genes", "both genomes carry the same id"]},
     },
     "C18": {
         "run": "^TestC18",
@@ -78,7 +78,7 @@ PROPS = {
         "level_note": "trusted: the adjacency model built from the genome specification; module links have weight 1.0 (the YAML syntax has no weight field)",
         "rule": "G-direct genomes with 0-2 modules; non-trivial = at least one disabled gene and (a recurrent or self-loop gene or an enabled module); distinct by (#nodes, #genes, #disabled, #recurrent, #self-loops, #modules, #enabled modules)",
         "assumptions": ["genomes have at least one gene and one output (Genesis documents an error otherwise)"],
-        "expect_classes": {"genesis": ["disabled gene", "self-loop gene", "enabled module", "disabled module", "module reading and driving the same node"]},
+        "expect_classes": {"genesis": ["disabled gene", "self-loop gene", "enabled module", "disabled module", "module reading and driving the same node", "genome expressed before in another state", "expressed before under the same network id"]},
     },
     "C12": {
         "run": "^TestC12",
@@ -210,8 +210,8 @@ PROPS = {
         "level_note": "trusted: the reference distance M4 and the replay of the rule; decisions within 1e-9 relative of the threshold or of a second-best candidate are accepted either way and counted; in (c) the representative of a surviving species is the old generation's fittest member (fitness values are distinct there)",
         "rule": "direct: non-trivial arrival = at least two robustly compatible species of which the first is not the closest (separates 'closest' from 'first compatible'); epochs: non-trivial turnover = more than one species afterwards; distinct by (arrival index, #species, #compatible, chosen, first compatible) / (epoch, #species, size)",
         "assumptions": ["representative of a species = its first organism at the time of the comparison", "threshold > 0"],
-        "expect_classes": {"direct": ["arrival with several compatible species", "first compatible species is not the closest", "arrival founding a species while others exist", "several batches", "method:fast", "method:linear"],
-                           "epochs": ["member of a surviving species", "member of a new species", "founder of a species founded in this turnover", "constructor:random", "constructor:read"]},
+        "expect_classes": {"direct": ["arrival with several compatible species", "first compatible species is not the closest", "arrival founding a species while others exist", "several batches", "method:fast", "method:linear", "distance exactly equal to the threshold", "species removed between arrivals"],
+                           "epochs": ["member of a surviving species", "member of a new species", "founder of a species founded in this turnover", "species founded in a turnover in which another went extinct", "constructor:random", "constructor:read"]},
     },
     "C09": {
         "run": "^TestC09",
